@@ -235,6 +235,51 @@ theorem packet_out_roundtrip (n : Nat) (p : PacketOut (Elem n)) (tl : Bytes)
   have h1 : ¬ ((acts ++ p.data).length < acts.length) := by simp
   simp only [decPacketOut, hd, h1, ↓reduceIte, List.take_left' rfl, List.drop_left' rfl, hda acts.length (Nat.le_refl _)]
 
+/-! ## 4c. Statistics request / reply: body dispatch by type code (`CodecOF.encStats` / `decStats` / `decBody`) -/
+
+/-- **`stats_reply_list_roundtrip`**: a statistics reply whose type is registered with `is_list` (flow, table, port,
+    queue — whatever the decorators say) and whose body is any list of well-formed entries of the registered class
+    (entries may themselves contain action lists): `pack` succeeds; `unpack` — which first reads the body as raw bytes,
+    looks the type up and then runs the `while len(packed)` loop — returns exactly the message and leaves exactly what
+    followed; the header length is the byte count. -/
+theorem statsFixed_hasLen : hasLen statsFixed = true := by decide
+
+theorem stats_reply_list_roundtrip (n t : Nat) (c : String) (r : Rec (Elem n)) (tl : Bytes)
+    (hreg : statsReplies.lookup t = some (c, true)) (ht : statsType r.vals = some t)
+    (hf : Fits (codecAt env n) (okAt env n) ⟨statsFixed, .list "body" c⟩ r) :
+    ∃ bs, encStats (codecAt env n) true r = some bs ∧ decStats (codecAt env n) true (bs ++ tl) = some (r, tl) ∧
+      hdrLen ⟨statsFixed, .rest "body"⟩ (bs ++ tl) = some bs.length := by
+  have hL : statsLayout true t = ⟨statsFixed, .list "body" c⟩ := by simp [statsLayout, replyKind, hreg]
+  obtain ⟨bs, _, he, _, hd, _, hh⟩ := roundtrip_nested env n ⟨statsFixed, .list "body" c⟩ r none tl hf (.inl statsFixed_hasLen)
+  obtain ⟨b, hb⟩ := decode_as_rest (codecAt env n) statsFixed "body" "body" c none (bs ++ tl) tl r.vals r.tail hd
+  refine ⟨bs, by simp [encStats, ht, hL, he], ?_, hh statsFixed_hasLen⟩
+  simp only [decStats, hb, ht, hL, hd]
+
+/-- **`stats_body_roundtrip`**: the single-body kinds (desc, aggregate, vendor, every request body, the generic body):
+    the message with the packed body as its raw tail round-trips, and `body.unpack(body_bytes, 0, len(body_bytes))` of the
+    registered body class recovers the body object and consumes all of it. -/
+theorem stats_body_roundtrip (n : Nat) (reply : Bool) (t : Nat) (Lb : Layout) (rb : Rec (Elem n)) (vals : List Val)
+    (body tl : Bytes) (hkind : ∀ c, (if reply then replyKind t else requestKind t) ≠ .list c)
+    (ht : statsType vals = some t)
+    (hfb : Fits (codecAt env n) (okAt env n) Lb rb) (hb : encode (codecAt env n) Lb rb = some body)
+    (hf : Fits (codecAt env n) (okAt env n) ⟨statsFixed, .rest "body"⟩ ⟨vals, .rest body⟩) :
+    ∃ bs, encStats (codecAt env n) reply ⟨vals, .rest body⟩ = some bs ∧
+      decStats (codecAt env n) reply (bs ++ tl) = some (⟨vals, .rest body⟩, tl) ∧
+      decBody (codecAt env n) Lb body = some (rb, []) := by
+  have hL : statsLayout reply t = ⟨statsFixed, .rest "body"⟩ := by
+    unfold statsLayout
+    cases hk : (if reply then replyKind t else requestKind t) with
+    | list c => exact absurd hk (hkind c)
+    | single c => rfl
+    | raw => rfl
+  obtain ⟨bs, _, he, _, hd, _, _⟩ := roundtrip_nested env n ⟨statsFixed, .rest "body"⟩ ⟨vals, .rest body⟩ none tl hf (.inl statsFixed_hasLen)
+  obtain ⟨tb, htb, hlen⟩ := encode_length _ Lb rb body hb
+  obtain ⟨b2, _, he2, _, hd2, _, _⟩ := roundtrip_nested env n Lb rb (some body.length) [] hfb
+    (.inr (.inr (fun t' ht' => by rw [htb] at ht'; cases ht'; rw [hlen])))
+  rw [hb] at he2; cases he2
+  refine ⟨bs, by simp [encStats, ht, hL, he], by simp only [decStats, hd, ht, hL], ?_⟩
+  simpa [decBody] using hd2
+
 /-! ## 5. `ofp_match` (hand model `Model/CodecMatch.lean`): wildcard normalisation -/
 
 open Pox.CodecMatch in
@@ -250,13 +295,15 @@ theorem match_roundtrip (m : M) (hr : InRange m) (hn : Normal m) (fm : Bool) (tl
   have he := reread_eqv fm m hr hn
   exact ⟨bs, reread fm m, hp, hl, hu, he, (pack_congr fm _ _ he).trans hp⟩
 
-/-- the full statement of the design for `flow_mod=True`, for *every* in-range match: the decoded object is the
-    original with prerequisite-less fields removed.  Not proved (for normal matches it is `match_roundtrip`); the
-    correspondence run evaluates it on the implementation and on the model (`eq_fixed` / `eqv_fixed`) for every
-    generated match, normal or not. -/
-def match_roundtrip_fm_full : Prop :=
-  ∀ (m : CodecMatch.M), CodecMatch.InRange m → ∀ tl, ∃ bs m', CodecMatch.pack true m = some bs ∧
-    CodecMatch.unpack true (bs ++ tl) = some (m', tl) ∧ CodecMatch.Eqv m' (CodecMatch.fix m)
+open Pox.CodecMatch in
+/-- **`match_roundtrip_fm`** (the design's full statement, formerly `match_roundtrip_fm_full`): in `flow_mod` mode, for
+    *every* match with in-range fields — normal or not — `pack` gives 40 bytes and `unpack` of them yields an object `==`
+    to `fix(m)`: the original with every field removed whose protocol prerequisite is absent.  (For normal matches
+    `fix(m) == m`, which is `match_roundtrip`.) -/
+theorem match_roundtrip_fm (m : M) (hr : InRange m) (tl : Bytes) :
+    ∃ bs m', pack true m = some bs ∧ bs.length = 40 ∧ unpack true (bs ++ tl) = some (m', tl) ∧ Eqv m' (fix m) := by
+  obtain ⟨bs, hp, hl, hu⟩ := unpack_pack true m hr tl
+  exact ⟨bs, reread true m, hp, hl, hu, reread_eqv_fm m hr⟩
 
 /-- a normal, in-range match with IP/TCP fields, a /24 source prefix and an exact destination -/
 def tcpMatch : CodecMatch.M :=
